@@ -25,6 +25,15 @@
 //   a deleted token inside the 5-minute window may go either way by the statement - there the
 //   outcome is compared with "last successful store check <= 5 min ago" and a difference is only
 //   counted (may_zone_differs_from_cache_model), not reported.
+//
+// Spelling part (spelling.go): a flat enumeration of request TARGETS - respellings of the four paths
+// (percent-encoded, double-encoded, other-case characters at <= 2 / <= 3 positions; dot segments,
+// /dashboard and /equity prefixes, absolute-form targets, queries, suffixes; several methods) - parsed
+// by the real request parser and judged by where the real RPC server handler (api.NewAPI) dispatches them.
+
+// /repo's go.mod says go 1.16, so a node built from it runs net/http's ServeMux in its pre-1.22 mode
+// (routing on the decoded URL.Path); this module says go 1.23 and would get the new mux without:
+//go:debug httpmuxgo121=1
 package main
 
 import (
@@ -583,6 +592,9 @@ func main() {
 	run.Set("narrow_max_depth_bound", narrowDepth)
 	search("narrow", narrow, narrowDepth)
 
+	// spelling part: who is a request "to"? (spelling.go)
+	compared += spellingPart(run)
+
 	run.Set("states", totalStates)
 	run.Set("transitions", transitions)
 	run.Set("traces_validated_against_impl", compared)
@@ -591,6 +603,7 @@ func main() {
 	run.Assume("time.Now() in authn.go is the only clock of the access decision; it is routed through the harness by a textual rewrite regenerated from the current source on every run (accesstoken's Created timestamp keeps the wall clock, it does not influence decisions)")
 	run.Assume("token secrets come from a deterministic stream installed as crypto/rand.Reader; every secret starts with 'b'")
 	run.Assume("the loopback origins, /dashboard and /equity are outside the statement; requests are issued sequentially")
+	run.Assume("spelling part: which endpoint a request is 'to' is read off the real RPC server handler (api.NewAPI without chain / network; each handler registered in buildHandler is wrapped in a marker by a textual rewrite of api.go regenerated on every run, the RPC bodies do not run) by sending the request from 127.0.0.1, and cross-checked against the check's own percent-decoder; net/http's ServeMux runs in the pre-1.22 mode that a node built from /repo's go.mod (go 1.16) gets; request targets are parsed by http.ReadRequest, the parser the server uses; targets come from bounded families of spellings of the four paths (see the manifest text), not from all strings")
 	run.Assume("clock steps never make two events exactly 5 minutes apart (299 s and 301 s steps), so the inclusive/exclusive end of the window is not decided here")
 	run.Finish()
 }
